@@ -23,12 +23,15 @@ example : unpickleN sn (pickleN [⟨"BuiltinRef", true, false, false⟩] (.node 
     = .node "BuiltinRef" [] := rfl
 
 open Manager in
-/-- behavioural identity on the manager model: a restored manager holds the same task table over equal containers
-    (every node of every expression round-trips, `C12_reduce_rebuild`) and indices that satisfy the index invariant
-    for that table (whatever their insertion order after unpickling); then every assignment to a plain location in
-    C01's scope ends with the same container contents and definitions as on the original, under any legal schedules
-    of the two.  (Independence — the copy shares no state — is immediate in the model, whose states are values; on the
-    implementation it is the oracle `copy-affects-original`.) -/
+/-- behavioural identity, CONDITIONAL: this is `reindex_same_behaviour` (the same statement as
+    `C11_same_definitions_same_behaviour`).  Its hypotheses say that the restored manager holds the same task table over
+    equal containers with indices satisfying the index invariant — that is NOT proved here: nothing in the model
+    describes `Manager.__getstate__` / pickling of the task table, the containers or the indices (`C12_reduce_rebuild`
+    is about expression nodes only); on the implementation those hypotheses are what the oracle checks after every
+    round trip (dump equality, `verify()`, index supports).  Given them, every assignment to a plain location in C01's
+    scope ends with the same container contents and definitions as on the original, under any legal schedules.
+    Independence (the copy shares no state) is immediate in the model, whose states are values; on the
+    implementation it is the oracle `copy-affects-original`. -/
 theorem C12_restored_same_behaviour (sched1 sched2 : Sched) (s : MState) (m : Index.Mgr Manager.Path Manager.Path)
     (p : Manager.Path) (v : Store.Val) (hi : MInv s) (hi' : MInv { s with idx := m })
     (hc : Consistent s) (hnodef : lookDef s.defs p = none) (sc : Scope s p)
